@@ -6,6 +6,7 @@ package main
 import (
 	"context"
 	"encoding/json"
+	"errors"
 	"fmt"
 	"math/big"
 	"strings"
@@ -15,6 +16,7 @@ import (
 	"github.com/ChainSafe/sygma-relayer/comm"
 
 	"github.com/ChainSafe/sygma-relayer/keyshare"
+	tssErrors "github.com/ChainSafe/sygma-relayer/tss"
 	ecdsaKeygen "github.com/ChainSafe/sygma-relayer/tss/ecdsa/keygen"
 	ecdsaResharing "github.com/ChainSafe/sygma-relayer/tss/ecdsa/resharing"
 	ecdsaSigning "github.com/ChainSafe/sygma-relayer/tss/ecdsa/signing"
@@ -137,7 +139,7 @@ func c08OpRerun(a []string) string {
 					res = "started"
 				} else if strings.Contains(e.Error(), "panic in Run") {
 					res = "panic"
-				} else if strings.Contains(e.Error(), "subset") {
+				} else if se := (*tssErrors.SubsetError)(nil); errors.As(e, &se) { // by TYPE, never by the error's wording
 					res = "notmember"
 				} else {
 					res = "err"
